@@ -41,6 +41,10 @@ def run(prog, res):
   staleloop.check_shadowed_attributes(
       prog, res, [f for f in prog.all_functions() if f.parent is None])
   res.floor('X8', 1)
+  staleloop.check_config_aliasing(
+      prog, res, [f for f in prog.all_functions() if f.parent is None and
+                  f.module.name in ('premade_lib', 'premade', 'configs')])
+  res.floor('S13', 3)
   serial.check_config_not_mutated(prog, res)
   res.floor('S12', 8)
   n_classes = 0
